@@ -445,13 +445,13 @@ package core
 
 //@ func (*Table).IndexesDescription
 //@   requires t != nil && t.Indexes != nil && forall n string :: {t.Indexes[n]} n in t.Indexes ==> t.Indexes[n] != nil && allocated(t.Indexes[n]) && IWf(t.Indexes[n])
-//@   ensures[C18] fresh(arr(result0)) && fresh(arr(result1))
-//@   ensures[C18] forall j int :: {result0[j]} 0 <= j && j < len(result0) ==> result0[j].IndexName != nil && fresh(result0[j].IndexName) && *result0[j].IndexName in t.Indexes &&
+//@   ensures[C18,C03] fresh(arr(result0)) && fresh(arr(result1))
+//@   ensures[C18,C03] forall j int :: {result0[j]} 0 <= j && j < len(result0) ==> result0[j].IndexName != nil && fresh(result0[j].IndexName) && *result0[j].IndexName in t.Indexes &&
 //@                t.Indexes[*result0[j].IndexName].typ == "global" && result0[j].ItemCount == len(t.Indexes[*result0[j].IndexName].refs)
-//@   ensures[C18] forall j int :: {result1[j]} 0 <= j && j < len(result1) ==> result1[j].IndexName != nil && fresh(result1[j].IndexName) && *result1[j].IndexName in t.Indexes &&
+//@   ensures[C18,C03] forall j int :: {result1[j]} 0 <= j && j < len(result1) ==> result1[j].IndexName != nil && fresh(result1[j].IndexName) && *result1[j].IndexName in t.Indexes &&
 //@                t.Indexes[*result1[j].IndexName].typ == "local" && result1[j].ItemCount == len(t.Indexes[*result1[j].IndexName].refs)
-//@   ensures[C18] forall a int, b int :: {result0[a], result0[b]} 0 <= a && a < b && b < len(result0) ==> result0[a].IndexName != result0[b].IndexName
-//@   ensures[C18] forall a int, b int :: {result1[a], result1[b]} 0 <= a && a < b && b < len(result1) ==> result1[a].IndexName != result1[b].IndexName
+//@   ensures[C18,C03] forall a int, b int :: {result0[a], result0[b]} 0 <= a && a < b && b < len(result0) ==> result0[a].IndexName != result0[b].IndexName
+//@   ensures[C18,C03] forall a int, b int :: {result1[a], result1[b]} 0 <= a && a < b && b < len(result1) ==> result1[a].IndexName != result1[b].IndexName
 //@   loop 1:
 //@     invariant fresh(arr(gsi)) && arr(gsi) != 0 && fresh(arr(lsi)) && arr(lsi) != 0 && arr(gsi) != arr(lsi)
 //@     invariant forall j int :: {gsi[j]} 0 <= j && j < len(gsi) ==> gsi[j].IndexName != nil && fresh(gsi[j].IndexName) && *gsi[j].IndexName in t.Indexes &&
